@@ -66,7 +66,7 @@ func GenDef(r *rand.Rand, p *Profile) Cfg {
 	ro := chance(r, p.Ro)
 	c.Nodes = []NodeCfg{{Name: Tok{}, Parent: 0, Um: um, Ro: ro, Fn: chance(r, 0.7)}}
 	if chance(r, p.Cmds) {
-		ncmd := 1 + r.Intn(2)
+		ncmd := 1 + r.Intn(3)
 		used := map[string]bool{}
 		for i := 0; i < ncmd; i++ {
 			name := pick(r, cmdPool)
@@ -87,7 +87,16 @@ func GenDef(r *rand.Rand, p *Profile) Cfg {
 			c.Nodes = append(c.Nodes, n)
 			if chance(r, 0.4) {
 				sn := pick(r, cmdPool)
-				c.Nodes = append(c.Nodes, NodeCfg{Name: T(sn), Parent: len(c.Nodes), Um: n.Um, Ro: n.Ro || chance(r, p.Ro/2), Fn: chance(r, 0.8)})
+				sub := NodeCfg{Name: T(sn), Parent: len(c.Nodes), Um: n.Um, Ro: n.Ro || chance(r, p.Ro/2), Fn: chance(r, 0.8)}
+				c.Nodes = append(c.Nodes, sub)
+				if chance(r, 0.25) {
+					// a third level, now and then with settings of its own
+					ssn := NodeCfg{Name: T(pick(r, cmdPool)), Parent: len(c.Nodes), Um: sub.Um, Ro: sub.Ro, Fn: chance(r, 0.8)}
+					if chance(r, 0.3) {
+						ssn.Um = p.Ums[r.Intn(len(p.Ums))]
+					}
+					c.Nodes = append(c.Nodes, ssn)
+				}
 			}
 		}
 	}
@@ -293,6 +302,7 @@ func GenDef(r *rand.Rand, p *Profile) Cfg {
 	c.Inherit = chance(r, 0.4)
 	c.OptsLate = chance(r, 0.3)
 	c.EnvLate = chance(r, 0.3)
+	c.EnvStep = chance(r, 0.3)
 	if len(c.Nodes) > 1 && chance(r, 0.15) {
 		// a program whose top level declares no options of its own: everything lives in the commands
 		targets := []int{}
